@@ -479,6 +479,20 @@ for _p in ("C04", "C08", "C10"):
     CLAIMS[_p]["text"] += CANCEL_NOTE
 
 
+def _market_step_tie():
+    import translated
+    return translated.market_step_tie()
+
+
+STEP_NOTE = (" Capstone (coq/translated/MarketStepProofs.v, re-checked on every run against the four generated methods together): the step function assembled from the GENERATED "
+             "_update_time, _add_order, _cancel_order and _execute_orders (the walk of a round staying the hand model) equals the model's step_rec on every state satisfying "
+             "the book invariant, for every operation, and therefore along every sequence of operations (`every_history_of_the_source_is_a_history_of_the_model`: same "
+             "states, same records) - the Level-M theorems of this property are theorems about histories of the source's own statements.")
+for _p in ("C04", "C06", "C08"):
+    CLAIMS[_p]["ties"] += (_market_step_tie,)
+    CLAIMS[_p]["text"] += STEP_NOTE
+
+
 def _expire_tie():
     import translated
     return translated.expire_tie()
